@@ -4,6 +4,7 @@
 use crate::conn::{BOp, RespSpec};
 use crate::emit::Rec;
 use crate::gen;
+use crate::inject::{RecvFault, WriteFault};
 use crate::rng::Rng;
 use crate::show::*;
 use crate::srv::{split_responses, World, SERVER_FULL};
@@ -26,11 +27,13 @@ pub struct Cfg {
     pub witness: bool,
     pub reconnect: bool,
     pub limit: Option<usize>,
+    /// per-mille weight of an injected fault at the libc boundary (inject.rs)
+    pub w_fault: usize,
 }
 
 impl Cfg {
     pub fn base(prop: &'static str) -> Cfg {
-        Cfg { prop, max_clients: 4, steps: 40, w_close: 0, w_shut: 0, w_garbage: 0, w_flush: 0, w_kill: 0, with_kill: false, big: false, witness: false, reconnect: false, limit: None }
+        Cfg { prop, max_clients: 4, steps: 40, w_close: 0, w_shut: 0, w_garbage: 0, w_flush: 0, w_kill: 0, with_kill: false, big: false, witness: false, reconnect: false, limit: None, w_fault: 0 }
     }
 }
 
@@ -152,8 +155,13 @@ impl Sim {
         if self.w.clients[i].sock.is_none() {
             return;
         }
-        let g: Vec<u8> = match rng.below(5) {
+        let g: Vec<u8> = match rng.below(8) {
             0 => b"BOGUS / HTTP/1.1\r\n\r\n".to_vec(),
+            // a rejected header whose long, multi-byte text is quoted in the 400 (at varying byte offsets)
+            5 => format!("GET /x HTTP/1.1\r\nContent-Length: {}{}\r\n\r\n", "a".repeat(rng.below(8)), "\u{e9}".repeat(rng.range(100, 420))).into_bytes(),
+            6 => format!("GET /x HTTP/1.1\r\n{}{}\r\n\r\n", "x".repeat(rng.below(5)), "\u{20ac}".repeat(rng.range(60, 300))).into_bytes(),
+            // a complete valid request and a malformed one in the same write: the valid one is discarded with the 400
+            7 => b"GET /first HTTP/1.1\r\n\r\nBOGUS\r\n\r\n".to_vec(),
             1 => b"GET /x HTTP/1.1\r\nContent-Length: abc\r\n\r\n".to_vec(),
             2 => b"PUT /big HTTP/1.1\r\nContent-Length: 99999999\r\n\r\n".to_vec(),
             3 => {
@@ -232,6 +240,8 @@ impl Sim {
             }
         } else if pick(c.w_flush) {
             self.w.flush(rec);
+        } else if pick(c.w_fault) && !live.is_empty() {
+            self.fault_step(rec, rng);
         } else {
             match rng.below(100) {
                 0..=9 => {
@@ -286,6 +296,72 @@ impl Sim {
                 }
             }
         }
+    }
+
+    /// One injected fault (inject.rs): the server's next `recv` on a connection that reports plain `IN` ends the
+    /// stream or fails with an errno, or its next `write` returns zero / an errno / a short count — then a poll.
+    pub fn fault_step(&mut self, rec: &mut Rec, rng: &mut Rng) {
+        let witness = self.cfg.witness;
+        let cands: Vec<usize> = (0..self.w.clients.len())
+            .filter(|&i| {
+                let c = &self.w.clients[i];
+                c.sock.is_some() && c.accepted && !c.srv_closed && c.srv_fd.map(|fd| self.w.by_fd.get(&fd) == Some(&i)).unwrap_or(false)
+            })
+            .collect();
+        if cands.is_empty() {
+            return;
+        }
+        // a write fault needs pending output: prefer clients the application can answer right now
+        let answerable: Vec<usize> = cands.iter().cloned().filter(|&i| self.w.held.iter().any(|h| h.client == Some(i))).collect();
+        let want_write = rng.chance(1, 2) && !answerable.is_empty();
+        let i = if want_write { *rng.pick(&answerable) } else { *rng.pick(&cands) };
+        let is_witness = witness && i == 0;
+        if !want_write && is_witness {
+            return;
+        }
+        if !want_write {
+            // read side: make sure the server has something to read from this client
+            if !self.plans[i].sent_garbage && !self.w.clients[i].wr_shut {
+                self.send_next(rec, rng, i);
+            } else {
+                self.w.send(rec, i, b"x");
+            }
+            let f = match rng.below(6) {
+                0 | 1 => RecvFault::Eof,
+                2 => RecvFault::Errno(libc::EAGAIN),
+                3 => RecvFault::Errno(libc::EINTR),
+                4 => RecvFault::Errno(libc::ECONNRESET),
+                _ => RecvFault::Errno(libc::ENOMEM),
+            };
+            self.w.arm_recv_fault(rec, i, f);
+            rec.count(&format!("fault:recv:{:?}", f));
+        } else {
+            // write side: the server needs pending output for this client
+            if let Some(k) = self.w.held.iter().position(|h| h.client == Some(i)) {
+                self.respond(rec, rng, k);
+            }
+            let f = if is_witness {
+                // faults a correct server rides out: the witness must still be served in full
+                match rng.below(3) {
+                    0 => WriteFault::Errno(libc::EINTR),
+                    1 => WriteFault::Short(1),
+                    _ => WriteFault::Short(rng.range(2, 60)),
+                }
+            } else {
+                match rng.below(7) {
+                    0 => WriteFault::Zero,
+                    1 => WriteFault::Errno(libc::EINTR),
+                    2 => WriteFault::Errno(libc::EAGAIN),
+                    3 => WriteFault::Errno(libc::EPIPE),
+                    4 => WriteFault::Short(1),
+                    5 => WriteFault::Short(rng.range(2, 60)),
+                    _ => WriteFault::Errno(libc::ECONNRESET),
+                }
+            };
+            self.w.arm_write_fault(rec, i, f);
+            rec.count(&format!("fault:write:{}", match f { WriteFault::Zero => "zero".to_string(), WriteFault::Errno(e) => format!("errno{}", e), WriteFault::Short(_) => "short".to_string() }));
+        }
+        self.poll(rec);
     }
 
     /// bring the history to quiescence: poll while ready, answer everything, let clients read
@@ -343,6 +419,9 @@ fn check_client_stream(rec: &mut Rec, sim: &Sim, i: usize, prop: &str) {
             100 | 400 | 500 => {
                 if *code == 400 && !p.sent_garbage {
                     rec.oracle_fail(prop, &format!("client {} received a 400 without having sent anything malformed", i), &sim.w.log);
+                }
+                if *code == 500 && !c.recv_err_injected {
+                    rec.oracle_fail("C07", &format!("client {} received a 500 although no read on its connection ever failed", i), &sim.w.log);
                 }
             }
             200 => {
@@ -432,6 +511,8 @@ pub fn c07(rec: &mut Rec, rng: &mut Rng, thorough: bool) {
         cfg.w_garbage = if k % 3 == 0 { 20 } else { 0 };
         cfg.reconnect = true;
         cfg.max_clients = rng.range(2, 4);
+        // responses larger than the socket buffer: partial writes, clients that read late
+        cfg.big = k % 4 == 1;
         let mut sim = run_history(rec, rng, cfg, "routing");
         // aimed: a client with requests in flight goes away (plainly, after garbage, after a shutdown),
         // a new one connects (descriptor reuse), the application answers late
@@ -563,6 +644,56 @@ pub fn c08(rec: &mut Rec, rng: &mut Rng, thorough: bool) {
     }
 }
 
+/// the witness (client 0) keeps doing round trips while the others misbehave and are answered late
+fn witness_rounds(rec: &mut Rec, rng: &mut Rng, sim: &mut Sim) {
+    // some clients never read their responses
+    // the witness keeps doing round trips
+    if sim.w.clients.is_empty() {
+        sim.connect(rec);
+    }
+    if sim.w.server.is_some() {
+        for _ in 0..3 {
+            sim.send_next(rec, rng, 0);
+            while !sim.plans[0].outq.is_empty() {
+                sim.send_next(rec, rng, 0);
+            }
+            for _ in 0..6 {
+                sim.poll(rec);
+                // answer only the witness's requests for now: the others are answered late
+                if let Some(k) = sim.w.held.iter().position(|h| h.tag.starts_with("/c0/")) {
+                    sim.respond(rec, rng, k);
+                }
+                sim.w.client_read(rec, 0);
+            }
+        }
+        // keep polling (answering only the witness) until its requests are through, within a bound
+        for _ in 0..40 {
+            let mine = sim.w.yielded.iter().filter(|(_, t)| t.starts_with("/c0/")).count();
+            let (resps, _) = split_responses(&sim.w.clients[0].received);
+            let got = resps.iter().filter(|(c, _)| *c == 200).count();
+            if mine == sim.plans[0].sent.len() && got == sim.plans[0].answered.len() && mine == got {
+                break;
+            }
+            sim.poll(rec);
+            while let Some(k) = sim.w.held.iter().position(|h| h.tag.starts_with("/c0/")) {
+                sim.respond(rec, rng, k);
+            }
+            sim.w.client_read(rec, 0);
+        }
+        // the witness's round trips completed although others misbehave and are not yet answered
+        let (resps, _) = split_responses(&sim.w.clients[0].received);
+        let got = resps.iter().filter(|(c, _)| *c == 200).count();
+        if sim.w.clients[0].accepted && got != sim.plans[0].answered.len() {
+            rec.oracle_fail("C09", &format!("the witness client received {} of {} responses", got, sim.plans[0].answered.len()), &sim.w.log);
+        }
+        let mine: Vec<String> = sim.w.yielded.iter().filter(|(_, t)| t.starts_with("/c0/")).map(|(_, t)| t.clone()).collect();
+        if sim.w.clients[0].accepted && mine != sim.plans[0].sent {
+            rec.oracle_fail("C09", &format!("the witness sent {:?} but {:?} were yielded", sim.plans[0].sent, mine), &sim.w.log);
+        }
+        rec.nontrivial();
+    }
+}
+
 pub fn c09(rec: &mut Rec, rng: &mut Rng, thorough: bool) {
     regress_f2(rec, rng);
     let n = if thorough { 3000 } else { 140 };
@@ -577,52 +708,7 @@ pub fn c09(rec: &mut Rec, rng: &mut Rng, thorough: bool) {
         cfg.max_clients = 4;
         cfg.big = rng.chance(1, 2); // clients that never read responses larger than the socket buffer
         let mut sim = run_history(rec, rng, cfg, "misbehaving");
-        // some clients never read their responses
-        // the witness keeps doing round trips
-        if sim.w.clients.is_empty() {
-            sim.connect(rec);
-        }
-        if sim.w.server.is_some() {
-            for _ in 0..3 {
-                sim.send_next(rec, rng, 0);
-                while !sim.plans[0].outq.is_empty() {
-                    sim.send_next(rec, rng, 0);
-                }
-                for _ in 0..6 {
-                    sim.poll(rec);
-                    // answer only the witness's requests for now: the others are answered late
-                    if let Some(k) = sim.w.held.iter().position(|h| h.tag.starts_with("/c0/")) {
-                        sim.respond(rec, rng, k);
-                    }
-                    sim.w.client_read(rec, 0);
-                }
-            }
-            // keep polling (answering only the witness) until its requests are through, within a bound
-            for _ in 0..40 {
-                let mine = sim.w.yielded.iter().filter(|(_, t)| t.starts_with("/c0/")).count();
-                let (resps, _) = split_responses(&sim.w.clients[0].received);
-                let got = resps.iter().filter(|(c, _)| *c == 200).count();
-                if mine == sim.plans[0].sent.len() && got == sim.plans[0].answered.len() && mine == got {
-                    break;
-                }
-                sim.poll(rec);
-                while let Some(k) = sim.w.held.iter().position(|h| h.tag.starts_with("/c0/")) {
-                    sim.respond(rec, rng, k);
-                }
-                sim.w.client_read(rec, 0);
-            }
-            // the witness's round trips completed although others misbehave and are not yet answered
-            let (resps, _) = split_responses(&sim.w.clients[0].received);
-            let got = resps.iter().filter(|(c, _)| *c == 200).count();
-            if sim.w.clients[0].accepted && got != sim.plans[0].answered.len() {
-                rec.oracle_fail("C09", &format!("the witness client received {} of {} responses", got, sim.plans[0].answered.len()), &sim.w.log);
-            }
-            let mine: Vec<String> = sim.w.yielded.iter().filter(|(_, t)| t.starts_with("/c0/")).map(|(_, t)| t.clone()).collect();
-            if sim.w.clients[0].accepted && mine != sim.plans[0].sent {
-                rec.oracle_fail("C09", &format!("the witness sent {:?} but {:?} were yielded", sim.plans[0].sent, mine), &sim.w.log);
-            }
-            rec.nontrivial();
-        }
+        witness_rounds(rec, rng, &mut sim);
         sim.settle(rec, rng);
         common_checks(rec, &mut sim, "C09");
         // released: a connection whose client is gone and whose requests are all answered is not kept
@@ -643,7 +729,7 @@ fn release_check(rec: &mut Rec, sim: &mut Sim, prop: &str) {
         .w
         .clients
         .iter()
-        .filter(|c| c.srv_fd.is_some() && !c.refused && c.sock.is_some() && !c.wr_shut && !(c.rd_shut && c.write_failed))
+        .filter(|c| c.srv_fd.is_some() && !c.refused && c.sock.is_some() && !c.wr_shut && !(c.rd_shut && c.write_failed) && !c.srv_closed)
         .filter(|c| c.accepted)
         .count();
     let fds = sim.w.server_fds();
@@ -793,8 +879,9 @@ pub fn c10(rec: &mut Rec, rng: &mut Rng, thorough: bool) {
                 if sim.w.clients[i].sock.is_none() || sim.w.clients[i].refused {
                     continue;
                 }
-                match rng.below(6) {
+                match rng.below(7) {
                     0 | 1 => sim.send_next(rec, rng, i),
+                    6 => sim.send_garbage(rec, rng, i),
                     2 => {
                         sim.poll(rec);
                     }
@@ -1047,6 +1134,37 @@ pub fn srv_conn(rec: &mut Rec, rng: &mut Rng, thorough: bool) {
         }
         sim.plans[c].sent = vec![tag(c, 0)];
         sim.settle(rec, rng);
+        sim.w.teardown();
+    }
+}
+
+/// Histories with faults injected at the libc boundary (inject.rs): a read that ends the stream or fails on an
+/// `IN` event without hang-up flag, writes that return zero / EINTR / EAGAIN / EPIPE / a short count. These are the
+/// paths of `ClientConnection::{read,write}` a real AF_UNIX peer cannot be made to reach on demand.
+/// Oracles: `requests()` never fails or panics; the witness is served in full (it only ever sees faults a correct
+/// server rides out); a 500 reaches only a client whose read failed; a connection the server was told has ended
+/// is released once its requests are answered; every client still receives only its own responses, in order.
+pub fn srv_fault(rec: &mut Rec, rng: &mut Rng, thorough: bool) {
+    let n = if thorough { 2500 } else { 110 };
+    for k in 0..n {
+        let mut cfg = Cfg::base("C09");
+        cfg.steps = rng.range(25, 70);
+        cfg.max_clients = rng.range(2, 4);
+        cfg.witness = true;
+        cfg.reconnect = true;
+        cfg.w_fault = 130;
+        cfg.w_close = if k % 2 == 0 { 15 } else { 0 };
+        cfg.w_garbage = if k % 3 == 0 { 15 } else { 0 };
+        cfg.big = k % 4 == 0;
+        let mut sim = run_history(rec, rng, cfg, "faults");
+        witness_rounds(rec, rng, &mut sim);
+        sim.settle(rec, rng);
+        common_checks(rec, &mut sim, "C09");
+        release_check(rec, &mut sim, "C09");
+        if sim.w.faults_taken > 0 {
+            rec.nontrivial();
+        }
+        rec.count(&format!("faults-taken:{}", sim.w.faults_taken.min(9)));
         sim.w.teardown();
     }
 }
